@@ -21,7 +21,7 @@ namespace PV.Prep
 
 /-! ## Keyword records, errors, terms -/
 
-inductive Err | typeError | valueError | zeroDivisionError
+inductive Err | typeError | valueError | zeroDivisionError | indexError
   deriving DecidableEq, Repr, Inhabited
 
 /-- `ftype=` of `scipy.signal.decimate`; `bad` is any other string (`ValueError`). -/
@@ -473,5 +473,26 @@ def qsStep (qs : List Nat) : Op → List Nat
 def activeQs (ops : List Op) : List Nat := ops.foldl qsStep []
 
 def prodNat (l : List Nat) : Nat := l.foldl (· * ·) 1
+
+/-! ## `pre_multisetup` with its exceptions (what the constructor does with a malformed `ref_ind`) -/
+
+/-- `for ii in range(n_ref): mov_id.remove(ref_id[ii])` — `list.remove` raises `ValueError` when the entry is not
+    (any more) in the list: a duplicated or out-of-range reference. -/
+def removeRefs (mov : List Nat) : List Nat → Except Err (List Nat)
+  | [] => .ok mov
+  | r :: rs => if r ∈ mov then removeRefs (mov.erase r) rs else .error .valueError
+
+/-- `gen.pre_multisetup(dataList, reflist)` as it is: `n_setup = len(dataList)` (surplus reference lists are
+    ignored, a missing one is an `IndexError`), per setup the removals, then `.reshape(n_ref, -1)` /
+    `.reshape(n_sens - n_ref, -1)`, which raise `ValueError` on an empty selection (no reference / no roving channel). -/
+def preMultisetupChecked (nch : Nat → Nat) : List Term → List (List Nat) → Except Err (List Split)
+  | [], _ => .ok []
+  | _ :: _, [] => .error .indexError
+  | y :: ys, r :: rs => do
+      let mov ← removeRefs (List.range (y.ncols nch)) r
+      if r = [] ∨ mov = [] then .error .valueError
+      else do
+        let rest ← preMultisetupChecked nch ys rs
+        pure ({ ref := r, mov := mov, y := y } :: rest)
 
 end PV.Prep
